@@ -313,6 +313,14 @@ def corpus():
     out.append((prog([("assign", "x", ("choice", [(v("p"), c(2)), (sub(c(1), v("p")), c(0))])), A("y", c(0))],
                      [A("y", add(v("y"), v("x"))), A("x", mul(c(F(1, 2)), v("x")))]),
                 [{"y": 1}, {"y": 2}], "init-choice-param"))
+    # 12b. the parameter reaches a variable only through a CHAIN of initial assignments (y random with parameter p,
+    # x computed from y in the initial part); the body updates x without p or p-dependent variables
+    out.append((prog([("assign", "y", ("draw", ("bern", v("p")))), A("x", mul(c(3), v("y"))), A("z", c(0))],
+                     [A("z", add(v("z"), v("x"))), A("x", mul(c(F(1, 2)), v("x")))]),
+                [{"x": 1}, {"z": 1}, {"x": 2}], "init-chain-param"))
+    out.append((prog([A("y", v("p")), ("simult", [("x", P.det(mul(c(2), v("y")))), ("z", P.det(v("q")))]), A("w", c(0))],
+                     [A("w", add(v("w"), mul(v("x"), v("z")))), A("x", add(mul(c(F(1, 3)), v("x")), c(1))), A("y", add(v("y"), c(1)))]),
+                [{"w": 1}, {"x": 1}], "init-chain-param-simultaneous"))
     # 13./14. continuous families whose moments are polynomial in the parameter (validators only:
     # the executable reference semantics has no continuous laws)
     out.append((prog([A("x", c(0)), A("u", c(0))],
